@@ -19,7 +19,46 @@ def sh(cmd, cwd, env=None, timeout=3600):
     p = subprocess.run(cmd, shell=True, cwd=cwd, env=env or ENV, capture_output=True, text=True, timeout=timeout)
     return p.returncode, p.stdout + p.stderr
 
+def rerun(ids):
+    """Re-run the recorded checks against every stored change (applied to /repo, then undone)."""
+    base = "/verif/seeded"
+    summary = []
+    for mid in sorted(os.listdir(base)):
+        if ids and mid not in ids:
+            continue
+        d = os.path.join(base, mid)
+        mp = os.path.join(d, "meta.json")
+        if not os.path.exists(mp):
+            continue
+        meta = json.load(open(mp))
+        rc, out = sh("git status --short", "/repo"); assert out.strip() == "", "/repo not clean: " + out
+        rc, out = sh(f"git apply {os.path.join(d, 'patch.diff')}", "/repo")
+        if rc != 0:
+            print(mid, "PATCH DOES NOT APPLY ANY MORE:", out[:300]); summary.append((mid, "n/a")); continue
+        det = {}
+        try:
+            for cmd in meta["ran"]:
+                c = cmd.split()[1]
+                t0 = time.time()
+                rc, out = sh(cmd, "/verif", env=dict(os.environ))
+                viol = [l for l in out.splitlines() if l.startswith("VIOLATION")]
+                cls = [l for l in out.splitlines() if l.startswith("failing run:") or l.startswith("probe ")]
+                det[c] = {"exit": rc, "detected": rc == 1 and bool(viol), "first": (cls[0] if cls else ""), "wall_s": round(time.time() - t0, 1)}
+        finally:
+            sh("git checkout -- .", "/repo")
+            sh("find /verif/replays -name '*.json' -delete", "/verif")
+        meta["detection"] = det
+        meta["detected_by"] = sorted(c for c, v in det.items() if v["detected"])
+        meta["rerun_at_repo_commit"] = subprocess.check_output(["git", "-C", "/repo", "rev-parse", "--short", "HEAD"], text=True).strip()
+        json.dump(meta, open(mp, "w"), indent=1)
+        print(mid, "->", meta["detected_by"] or "MISSED", {c: v["first"][:70] for c, v in det.items() if v["detected"]})
+        summary.append((mid, meta["detected_by"]))
+    missed = [m for m, d in summary if not d]
+    print("missed:", missed)
+
 def main():
+    if sys.argv[1] == "rerun":
+        return rerun(sys.argv[2:])
     _, _, mdir, prop, mid, demo, democmd, *checks = sys.argv
     checks = checks or [prop]
     dsrc, ddst = demo.split(":")
